@@ -230,6 +230,42 @@ Proof.
 Qed.
 Print Assumptions C07_recoverable_refuted_renew_fresh_key.
 
+(** ... and with SEVERAL issuers the statement is false (this is C06's known finding seen from the recovery):
+    issuers [A; B], key reuse; B holds an older certificate that is due, A a newer one that was revoked for
+    key compromise. The fresh instance quarantines A's key, its obtain is a no-op because B's bundle is
+    complete, and it ends up serving B's DUE certificate - on the compromised key - although both issuers
+    would have answered. *)
+Definition w7m_cfg := Config 2 true false.
+Definition w7m_a := snd (run_hop_pure w7m_cfg w7_sp (Oracle [None; Some (10%Z, VDue)] []) HManage empty_core).
+Definition w7m_b := snd (run_hop_pure w7m_cfg w7_sp (Oracle [Some (20%Z, VFresh); None] []) (HRenew true) w7m_a).
+Definition w7m_c := snd (run_hop_pure w7m_cfg w7_sp (Oracle [] []) (HRevokeEnv 0 true) w7m_b).
+Lemma w7m_reach : reach6 w7m_cfg w7_sp w7m_c.
+Proof.
+  assert (Ra : reach6 w7m_cfg w7_sp w7m_a).
+  { eapply reach6_step; [apply reach6_empty|]. apply evals_run_hop; [apply typed_nil | reflexivity]. }
+  assert (Rb : reach6 w7m_cfg w7_sp w7m_b).
+  { eapply reach6_step; [exact Ra|]. apply evals_run_hop; [apply (i_typed _ _ _ (reach6_inv _ _ _ Ra)) | apply (i_unlocked _ _ _ (reach6_inv _ _ _ Ra))]. }
+  eapply reach6_step; [exact Rb|]. apply evals_run_hop; [apply (i_typed _ _ _ (reach6_inv _ _ _ Rb)) | apply (i_unlocked _ _ _ (reach6_inv _ _ _ Rb))].
+Qed.
+Theorem C07_recoverable_with_revocations_refuted_two_issuers :
+  exists cfg sp c orc mc c',
+    reach6 cfg sp c /\ canonical sp /\ n_iss cfg = 2%nat /\ stuck (k_st c) cfg (s_save sp) = false /\
+    (forall i, In i (issuers cfg) -> nth i (o_out orc) None = Some (30%Z, VFresh)) /\
+    evals (manage no_faults cfg sp orc) c (Ok mc) c' /\
+    is_due (m_c mc) = true /\ k_nser c' = k_nser c /\ dir_comp (k_st c') 0 0 = Some (m_k mc).
+Proof.
+  pose proof (reach6_inv _ _ _ w7m_reach) as I.
+  exists w7m_cfg, w7_sp, w7m_c, (Oracle [Some (30%Z, VFresh); Some (30%Z, VFresh)] []).
+  generalize (evals_manage w7m_cfg w7_sp (Oracle [Some (30%Z, VFresh); Some (30%Z, VFresh)] []) w7m_c (i_typed _ _ _ I) (i_unlocked _ _ _ I)).
+  remember (manage_pure w7m_cfg w7_sp (Oracle [Some (30%Z, VFresh); Some (30%Z, VFresh)] []) w7m_c) as mp eqn:Emp.
+  vm_compute in Emp. subst mp. cbn [fst snd]. intros HM.
+  eexists _, _. split; [exact w7m_reach|]. split; [split; reflexivity|]. split; [reflexivity|].
+  split; [vm_compute; reflexivity|]. split; [intros i [<-|[<-|[]]]; reflexivity|].
+  split; [exact HM|]. repeat split; vm_compute; reflexivity.
+Qed.
+Print Assumptions C07_recoverable_with_revocations_refuted_two_issuers.
+
+
 (** the same program and crash point with key reuse recovers (hypotheses of the theorems are met
     by non-trivial states) *)
 Definition w7r_cfg := Config 1 true false.
